@@ -193,6 +193,13 @@ def inject_actuators(xml, mjm, rng):
       lines.append(f'    <intvelocity name="x{k}" {trn}="{b}" gear="{f(g)} 0 0 0" kp="{f(rng.uniform(1, 30))}" actrange="{f([lo, lo + rng.uniform(1, 6)])}"{" actearly=\"true\"" if rng.random() < 0.5 else ""}/>')
     feats.add("inj:ball_servo")
     k += 1
+  # slider-crank with a non-unit gear (the shared generator never sets one)
+  sn = [x for x in _names(mjm, mujoco.mjtObj.mjOBJ_SITE, mjm.nsite) if x]
+  if len(sn) >= 2 and rng.random() < 0.3:
+    i1, i2 = rng.choice(len(sn), size=2, replace=False)
+    lines.append(f'    <general name="x{k}" cranksite="{sn[i1]}" slidersite="{sn[i2]}" cranklength="{f(rng.uniform(0.5, 2.5))}" gear="{f(rng.uniform(-3, 3))}" gainprm="{f(rng.uniform(0.5, 5))}" biastype="affine" biasprm="{f(rng.normal(size=3))}"/>')
+    feats.add("inj:slidercrank_gear")
+    k += 1
   if not lines:
     return xml, feats
   sec = "  <actuator>\n" + "\n".join(lines) + "\n  </actuator>\n"
